@@ -55,6 +55,9 @@ def configs(tier):
                                        ['float32', 'float64'][k % 4 // 2] for p in range(P)],
                         'optional_matrices': k % 3 == 0, 'unused_last_template': k % 2 == 0,
                         'optional_matrix': ['similar_templates.npy', 'whitening_mat_inv.npy'][(k // 3) % 2]})
+    # an 8-bit index table in the first probe, merged indices beyond 255 (symbolic tables, concrete channels)
+    out.append({'P': 2, 'spikes': [1, 1], 'nch': [256, 3], 'ntpl': [1, 2], 'nsw': 1, 'sym': 'tables', 'sym_tables': True,
+                'table_dtypes': ['uint8', 'int32'], 'map_dtypes': ['int32', 'int32'], 'tpl_dtypes': ['float32', 'float32']})
     return out
 
 
